@@ -31,10 +31,12 @@ ASSUMPTIONS = [
 NAMES = ["A", "a", "B", "", "A:1", "1", "count"]
 PROBES = ["A", "a", "B", "b", "", "UNKNOWN", "unknown", "1", "A:1", "a:1", "A:2", "Z", "count", "COUNT"]
 DEPTH = {"quick": 4, "thorough": 6}
-ROOTS = ["empty", "empty-ci", "read-preserve", "read-upper", "read-upper-emptyP", "read-lower-emptyP", "read-preserve-emptyP"]
+ROOTS = ["empty", "empty-ci", "read-preserve", "read-upper", "read-upper-emptyP", "read-lower-emptyP", "read-preserve-emptyP",
+         "read-upper-pickled", "read-upper-deepcopied", "read-curves", "read-curves-pickled"]
 # whether the section compares case-insensitively follows from how it was made, not from the object's own flag
 ROOT_CI = {"empty": False, "empty-ci": True, "read-preserve": False, "read-upper": True,
-           "read-upper-emptyP": True, "read-lower-emptyP": True, "read-preserve-emptyP": False}
+           "read-upper-emptyP": True, "read-lower-emptyP": True, "read-preserve-emptyP": False,
+           "read-upper-pickled": True, "read-upper-deepcopied": True, "read-curves": True, "read-curves-pickled": True}
 EMPTY_P_FILE = ("~V\nVERS. 2.0 :\nWRAP. NO :\n~W\nSTRT.M 1 :\nSTOP.M 2 :\nSTEP.M 1 :\nNULL. -999.25 :\n~P\n# nothing here\n\n"
                 "~C\nD.M : depth\n~A\n1\n2\n")
 LIST_ATTRS = set(dir(list)) | set(dir(SectionItems))
@@ -64,6 +66,13 @@ def _root(root):
         sec = SectionItems()
         sec.mnemonic_transforms = _EMPTY[root]
         return sec, None, HeaderItem
+    if root.endswith("-pickled") or root.endswith("-deepcopied"):
+        import copy
+        import pickle
+        sec, las, factory = c13.make_root(root.rsplit("-", 1)[0])
+        # the section as it comes out of a copy: lookups must keep working on copies too
+        sec = pickle.loads(pickle.dumps(sec)) if root.endswith("-pickled") else copy.deepcopy(sec)
+        return sec, None, factory
     return c13.make_root(root)
 
 
@@ -81,12 +90,17 @@ def build(root, history):
     return section
 
 
+def _data(i):
+    d = getattr(i, "data", None)
+    return None if d is None else (str(np.asarray(d).dtype), np.asarray(d).tolist().__repr__())
+
+
 def snap(section):
-    return [(id(i), i.mnemonic, i.original_mnemonic, i.unit, repr(i.value), i.descr) for i in section]
+    return [(id(i), i.mnemonic, i.original_mnemonic, i.unit, repr(i.value), i.descr, _data(i)) for i in section]
 
 
 def content(section):
-    return [(i.mnemonic, i.original_mnemonic, i.unit, repr(i.value), i.descr) for i in section]
+    return [(i.mnemonic, i.original_mnemonic, i.unit, repr(i.value), i.descr, _data(i)) for i in section]
 
 
 def probe_state(root, history):
@@ -175,8 +189,8 @@ def probe_state(root, history):
                 vio.append(V("set-value-absent", k, "KeyError", "accepted"))
             else:
                 want = list(ref)
-                m, o, u, v, d = want[pos]
-                want[pos] = (m, o, u, repr("NEW VALUE"), d)
+                m, o, u, v, d, dd = want[pos]
+                want[pos] = (m, o, u, repr("NEW VALUE"), d, dd)
                 if content(s) != want:
                     vio.append(V("set-value", k, want, content(s)))
         except KeyError:
